@@ -617,10 +617,10 @@ def simple_cfg(name, consts, invariants, view=False):
 def plan_C16(ctx):
     ctx.extra["rule"] = ("TLC enumerates names: all 2^len letter-case variants of every table name (<= 14 letters; thorough: also the 2^19 "
         "variants of P-Asserted-Identity), every byte string of length 0..3 over a 40 byte alphabet, every one-edit neighbour "
-        "(insert/delete/substitute/transpose) of every table name; checks on the model that the hash lookup equals membership in the "
+        "(insert/delete/substitute/transpose) of every table name, every table name extended by 1..12 bytes and every proper prefix; checks on the model that the hash lookup equals membership in the "
         "literal table (AutoEqDecl, RoundTrip) and prints what the DOCUMENTED table says; each record is executed on the real "
         "GetHdrType / GetMethodNo (+ Name() and back).  The header parser's use of the classification is covered by C07.")
-    parts = ["edits", "short", "cases"] + ([] if ctx.quick else ["caseslong"])
+    parts = ["edits", "short", "cases", "ext"] + ([] if ctx.quick else ["caseslong"])
     for part in parts:
         ctx.tlc("MC_Lookup", simple_cfg("lookup_%s.cfg" % part, ["OffsMod = 65536", 'Part = "%s"' % part], ["AutoEqDecl", "RoundTrip", "Emit"]),
                 workers=8, min_records=1000)
@@ -639,16 +639,17 @@ def plan_C10(ctx):
         ctx.tlc("MC_Digits", simple_cfg("digits_%s.cfg" % pos, ["OffsMod = 65536", 'Pos = "%s"' % pos], ["Emit", "Arith"]), workers=4, min_records=100)
     # URI port incl. digits before an '@' (password) and ports above 65535: PortExact is an invariant of MC_URI_port on the model;
     # every URI is executed on the real ParseURI; drifted and sampled real results are judged by TLC with PortExact
-    r = vlib.run_tlc("MC_URI", "MC_URI_port.cfg", workers=8, timeout=1500)
-    if not r["ok"]: raise Machinery("TLC failed on MC_URI_port:\n" + r["tail"])
-    ctx.states += r["distinct"]; ctx.transitions += r["generated"]
-    dr = os.path.join(r["dir"], "drift.ndjson")
-    rp = vlib.replay(r["out"], drift_out=dr)
-    ctx.records += rp["extra"]["records"]; ctx.impl_traces += rp["extra"]["records"]; ctx.drift += rp["extra"]["drift"]
-    ctx.tlc_runs.append(dict(module="MC_URI", cfg="MC_URI_port.cfg", states=r["distinct"], records=rp["extra"]["records"], drift=rp["extra"]["drift"]))
-    if rp["extra"]["drift"]: ctx.judge("Judge_URI", dr)
-    audit_sample(ctx, r["out"], 499 if ctx.quick else 97)
-    shutil.rmtree(r["dir"], ignore_errors=True)
+    for pcfg in ("MC_URI_port.cfg", "MC_URI_brk.cfg"):
+        r = vlib.run_tlc("MC_URI", pcfg, workers=8, timeout=1500)
+        if not r["ok"]: raise Machinery("TLC failed on %s:\n" % pcfg + r["tail"])
+        ctx.states += r["distinct"]; ctx.transitions += r["generated"]
+        dr = os.path.join(r["dir"], "drift.ndjson")
+        rp = vlib.replay(r["out"], drift_out=dr)
+        ctx.records += rp["extra"]["records"]; ctx.impl_traces += rp["extra"]["records"]; ctx.drift += rp["extra"]["drift"]
+        ctx.tlc_runs.append(dict(module="MC_URI", cfg=pcfg, states=r["distinct"], records=rp["extra"]["records"], drift=rp["extra"]["drift"]))
+        if rp["extra"]["drift"]: ctx.judge("Judge_URI", dr)
+        audit_sample(ctx, r["out"], 499 if ctx.quick else 97)
+        shutil.rmtree(r["dir"], ignore_errors=True)
     # out-of-range numeric headers inside whole messages: rejected one-shot AND under every two-call schedule
     r = vlib.run_tlc("MC_GenMsg", genmsg_cfg(1, "bigclen", "C10"), workers=8, timeout=900)
     if not r["ok"]: raise Machinery("TLC failed on MC_GenMsg bigclen:\n" + r["tail"])
@@ -708,7 +709,8 @@ def plan_C14(ctx):
         "(SipURI.tla); every explored input is executed on the real ParseURI (drift = model != code). Real results that differ from the "
         "model, and a sample of all real results, are judged by TLC with the same predicate (Judge_URI.tla). Known, outside the "
         "quantifier: byte 0x1a accepted as the scheme colon.")
-    runs = [("MC_URI_core.cfg", 1), ("MC_URI_schemes.cfg", 1)] if ctx.quick else [("MC_URI_core.cfg", 1), ("MC_URI_schemes.cfg", 1), ("MC_URI_sip.cfg", 1), ("MC_URI_sips.cfg", 1), ("MC_URI_tel.cfg", 1), ("MC_URI_port.cfg", 1)]
+    runs = [("MC_URI_core.cfg", 1), ("MC_URI_schemes.cfg", 1), ("MC_URI_deepuser.cfg", 1), ("MC_URI_brk.cfg", 1)]
+    if not ctx.quick: runs += [("MC_URI_sip.cfg", 1), ("MC_URI_sips.cfg", 1), ("MC_URI_tel.cfg", 1), ("MC_URI_port.cfg", 1)]
     for cfg, _ in runs:
         r = vlib.run_tlc("MC_URI", cfg, workers=8, timeout=1500)
         if not r["ok"]: raise Machinery("TLC failed on MC_URI/%s:\n%s" % (cfg, r["tail"]))
